@@ -138,6 +138,14 @@ func runC05(c *Ctx) {
 				i := r.Intn(len(members))
 				fresh++
 				neu := fmt.Sprintf("r%d", fresh)
+				if fresh%4 == 0 {
+					// a respelling in letter case only (still a unique name: the digits keep it apart)
+					if up := strings.ToUpper(members[i]); up != members[i] {
+						neu = up
+					} else {
+						neu = strings.ToLower(members[i])
+					}
+				}
 				apply("ReNick", members[i], neu)
 				push("NICK", fmt.Sprintf(":%s!i@h NICK %s", members[i], neu))
 				members[i] = neu
